@@ -40,18 +40,16 @@ def install_md(reg):
         why = 'src/hash_SHA2_template.c (%s; C buffering: C03 third bullet)' % BOUNDED
         P = 'native.%s.' % alg
         init = init_model(pre + '_init', 1, lambda E, st, a: z3.BoolVal(False), lambda st, a: {})
-        # ERR_MAX_DATA only when the 64/128-bit bit counter of the length field overflows; otherwise every byte is absorbed
+        # every byte is absorbed.  ERR_MAX_DATA (the 64/128-bit bit counter of the length field overflows: more than 2**61 / 2**125
+        # bytes fed to ONE object, decades of hashing) is not modelled
         update = Contract(P + 'update', params={'state': S, 'data': 'bytes', 'length': 'int'}, requires=['length == len(data)'],
-                          result='int',
-                          ensures={'code': 'result != 0 ==> len(old(state.g_data)) + length >= %d' % limit,
-                                   'data': 'result == 0 ==> state.g_data == old(state.g_data) + bytes(data)'},
-                          modifies=['state.g_data'], assumed=why)
+                          returns='0', sets={'state.g_data': 'old(state.g_data) + bytes(data)'}, modifies=['state.g_data'],
+                          options={'exact': True}, assumed=why)
         digest = Contract(P + 'digest', params={'state': S, 'out': 'bytearray', 'size': 'int'},
                           requires=['size <= len(out)'], result='int',
                           # ERR_DIGEST_SIZE iff size != digest size; works on a copy (const state): repeatable, more data may follow
-                          ensures={'code': 'result != 0 ==> (size != %d or len(state.g_data) >= %d)' % (ds, limit),
-                                   'out': 'result == 0 ==> bytes(out)[:size] == spec.hashprim.md("%s", state.g_data)' % alg,
-                                   'size': 'result == 0 ==> size == %d' % ds},
+                          ensures={'code': '(result != 0) <==> (size != %d)' % ds,
+                                   'out': 'result == 0 ==> bytes(out)[:size] == spec.hashprim.md("%s", state.g_data)' % alg},
                           modifies=['out'], assumed=why)
         rawapi.install_lib(reg, H + mod + '.' + lib, 'native.' + alg,
                            {pre + '_init': init, pre + '_update': update, pre + '_digest': digest,
@@ -68,35 +66,29 @@ def add_md(reg):
     for mod, cls, lib, pre, ds, alg, limit in MD:
         c = H + mod + '.' + cls
         s = ST()
-        toolong = 'len(%s.g_data) + len(data) >= %d' % (s, limit)
         reg.add(ClassContract(c, fields={'_state': 'obj:' + SP}, valid=[]))
 
         def post(o):
             return {'absorbed': '%s.g_data == (b"" if data is None else bytes(data))' % ST(o)}
-        reg.add(Contract(c + '.__init__', params={'data': 'buffer|none'},
-                         # the only native failure: more than 2**64 (2**128) bits of data
-                         raises={'ValueError': ('only_if', 'data is not None and len(data) >= %d' % limit)}, ensures=post('self'),
+        reg.add(Contract(c + '.__init__', params={'data': 'buffer|none'}, raises={}, ensures=post('self'),
                          modifies=['self._state'], options=opts(assume_valid=False)))
         # hashlib semantics (FSM HASH.free): update()/digest()/copy() in any order; digest() does not finalise
         for m in ('update', 'digest', 'copy'):
             assert fsm_clauses('HASH.free', {('update', 'digest', 'copy'): 'True'}, m)[0] == 'False'
         reg.add(Contract(c + '.update', params={'data': 'buffer'}, requires=['valid(self)'],
-                         raises={'ValueError': ('only_if', toolong)},
+                         raises={},
                          ensures={'absorbed': '%s.g_data == old(%s.g_data) + bytes(data)' % (s, s)},
-                         modifies=[s + '.g_data'], options=opts(on_raise_modifies=[s + '.g_data'])))
-        reg.add(Contract(c + '.digest', params={}, requires=['valid(self)'],
-                         raises={'ValueError': ('only_if', 'len(%s.g_data) >= %d' % (s, limit))},
+                         modifies=[s + '.g_data'], options=opts()))
+        reg.add(Contract(c + '.digest', params={}, requires=['valid(self)'], raises={},
                          ensures={'value': 'result == spec.hashprim.md("%s", %s.g_data)' % (alg, s)},
                          modifies=[], result='bytes', options=opts()))
         reg.add(Contract(c + '.copy', params={}, requires=['valid(self)'], raises={},
                          ensures={'fresh': 'result is not self and result._state is not self._state and %s is not %s' % (ST('result'), s),
                                   'state': same_native('result', 'self'), 'valid': 'valid(result)'},
                          modifies=[], result='obj:' + c, options=opts()))
-        reg.add(Contract(c + '.new', params={'data': 'buffer|none'},
-                         raises={'ValueError': ('only_if', 'data is not None and len(data) >= %d' % limit)}, ensures=post('result'),
+        reg.add(Contract(c + '.new', params={'data': 'buffer|none'}, raises={}, ensures=post('result'),
                          modifies=[], result='obj:' + c, options=opts()))
-        reg.add(Contract(H + mod + '.new', params={'data': 'buffer|none'},
-                         raises={'ValueError': ('only_if', 'data is not None and len(data) >= %d' % limit)}, ensures=post('result'),
+        reg.add(Contract(H + mod + '.new', params={'data': 'buffer|none'}, raises={}, ensures=post('result'),
                          modifies=[], result='obj:' + c, options=opts()))
 
 
@@ -114,15 +106,13 @@ def install_blake2(reg):
         init = init_model(pre + '_init', 4,
                           lambda E, st, a, mx=mx: z3.Or(zint(a[2]) > mx, zint(a[3]) == 0, zint(a[3]) > mx, zint(a[3]) < 0, zint(a[2]) < 0),
                           lambda st, a: dict(g_key=SBytes(z3.SubSeq(zbytes(_buf(st, a[1])), 0, zint(a[2])), 'bytes'), g_p1=a[3]))
+        # ERR_MAX_DATA (byte counter overflow: 2**128 / 2**64 bytes fed to one object) is not modelled
         update = Contract(P + 'update', params={'state': S, 'data': 'bytes', 'length': 'int'}, requires=['length == len(data)'],
-                          result='int',
-                          ensures={'code': 'result != 0 ==> len(old(state.g_data)) + length >= %d' % limit,
-                                   'data': 'result == 0 ==> state.g_data == old(state.g_data) + bytes(data)'},
-                          modifies=['state.g_data'], assumed=why)
-        digest = Contract(P + 'digest', params={'state': S, 'out': 'bytearray'}, requires=['len(out) >= %d' % mx], result='int',
-                          # the full chaining value (64 / 32 bytes) is written; its first digest_size bytes are the digest (RFC 7693 3.3)
-                          ensures={'code': 'result != 0 ==> len(state.g_data) >= %d' % limit,
-                                   'out': 'result == 0 ==> bytes(out)[:state.g_p1] == spec.hashprim.blake2(%d, state.g_p1, state.g_key, state.g_data)' % mx},
+                          returns='0', sets={'state.g_data': 'old(state.g_data) + bytes(data)'}, modifies=['state.g_data'],
+                          options={'exact': True}, assumed=why)
+        digest = Contract(P + 'digest', params={'state': S, 'out': 'bytearray'}, requires=['len(out) >= %d' % mx], returns='0',
+                          # works on a copy; the full chaining value (64 / 32 bytes) is written, its first digest_size bytes are the digest (RFC 7693 3.3)
+                          ensures={'out': 'bytes(out)[:state.g_p1] == spec.hashprim.blake2(%d, state.g_p1, state.g_key, state.g_data)' % mx},
                           modifies=['out'], assumed=why)
         rawapi.install_lib(reg, H + mod + '.' + lib, 'native.' + pre,
                            {pre + '_init': init, pre + '_update': update, pre + '_digest': digest,
@@ -159,7 +149,6 @@ def add_blake2(reg):
                                          '_state': 'obj:' + SP},
                               valid=['1 <= self.digest_size and self.digest_size <= %d' % mx, '%s.g_p1 == self.digest_size' % s,
                                      'len(%s.g_key) <= %d' % (s, mx)]))
-        toolong = 'len(%s.g_data) + len(data) >= %d' % (s, limit)
 
         def post(o, data, key, ds, uad):
             so = ST(o)
@@ -170,23 +159,22 @@ def add_blake2(reg):
                     'fresh': 'not %s._digest_done and %s._update_after_digest == %s' % (o, o, uad), 'valid': 'valid(%s)' % o}
         reg.add(Contract(c + '.__init__', params={'data': 'buffer|none', 'key': 'buffer', 'digest_bytes': 'int', 'update_after_digest': 'bool'},
                          self_type='new:' + c,
-                         # RFC 7693 2.1: 1 <= nn <= 64 (32), 0 <= kk <= 64 (32) -- outside: the native init refuses -> ValueError
-                         raises={'ValueError': ('iff', 'len(key) > %d or digest_bytes < 1 or digest_bytes > %d or '
-                                                       '(data is not None and len(data) >= %d and False)' % (mx, mx, limit))},
-                         ensures=post('self', 'data', 'key', 'digest_bytes', 'update_after_digest'),
-                         modifies=None, options=opts(assume_valid=False)))
+                         # preconditions derived from the only caller, new(), which enforces RFC 7693 2.1 (1 <= nn <= 64 (32), 0 <= kk <= 64 (32))
+                         requires=['1 <= digest_bytes and digest_bytes <= %d' % mx, 'len(key) <= %d' % mx],
+                         raises={}, ensures=post('self', 'data', 'key', 'digest_bytes', 'update_after_digest'),
+                         # (`oid` is an optional attribute: this contract is never applied at a call site, new() inlines __init__)
+                         modifies=['self.digest_size', 'self._update_after_digest', 'self._digest_done', 'self.oid', 'self._state'],
+                         options=opts(assume_valid=False)))
         forb, fpost = b2_fsm('update')
         reg.add(Contract(c + '.update', params={'data': 'buffer'}, requires=['valid(self)'],
-                         raises={'TypeError': ('iff', forb), 'ValueError': ('only_if', toolong)},
-                         unchanged_on_raise=['TypeError'],
+                         raises={'TypeError': ('iff', forb)}, unchanged_on_raise=True,
                          ensures=dict(fpost, absorbed='%s.g_data == old(%s.g_data) + bytes(data)' % (s, s), self='result is self',
                                       valid='valid(self)'),
-                         returns='self', modifies=[s + '.g_data'], options=opts(on_raise_modifies=[s + '.g_data'])))
+                         returns='self', modifies=[s + '.g_data'], options=opts()))
         forb, fpost = b2_fsm('digest')
         assert forb == 'False'
         value = 'spec.hashprim.blake2(%d, self.digest_size, %s.g_key, %s.g_data)' % (mx, s, s)
-        reg.add(Contract(c + '.digest', params={}, requires=['valid(self)'],
-                         raises={'ValueError': ('only_if', 'len(%s.g_data) >= %d' % (s, limit))},
+        reg.add(Contract(c + '.digest', params={}, requires=['valid(self)'], raises={},
                          ensures=dict(fpost, value='result == ' + value, size='len(result) == self.digest_size', done='self._digest_done',
                                       valid='valid(self)'),
                          modifies=['self._digest_done'], result='bytes', options=opts()))
@@ -195,7 +183,7 @@ def add_blake2(reg):
         assert forb == 'False'
         for kind in ('bytes', 'bytearray', 'memoryview'):
             reg.contracts[c + '.verify#' + kind] = Contract(
-                c + '.verify', params={'mac_tag': kind}, requires=['valid(self)', 'len(%s.g_data) < %d' % (s, limit)],
+                c + '.verify', params={'mac_tag': kind}, requires=['valid(self)'],
                 raises={'ValueError': ('iff', 'bytes(mac_tag) != ' + value)},
                 ensures=dict(fpost, accepted='bytes(mac_tag) == ' + value, done='self._digest_done', valid='valid(self)'),
                 on_raise={'ValueError': ['self._digest_done', 'valid(self)']},
@@ -215,7 +203,7 @@ def add_blake2(reg):
                          raises={'TypeError': ('iff', '%s or (not %s and not %s and %s)' % (both, badsize, badkey, kw_has('bogus'))),
                                  'ValueError': ('iff', 'not %s and (%s or %s)' % (both, badsize, badkey))},
                          ensures=post('result', kw_old('data', 'None'), kw_old('key', 'b""'), ds, kw_old('update_after_digest', 'False')),
-                         modifies=None, result='obj:' + c, options=opts()))
+                         modifies=None, result='obj:' + c, inline=[c + '.__init__'], options=opts()))
 
 
 # ================================================================================================ Poly1305
@@ -248,12 +236,12 @@ def add_poly1305(reg):
                                  'self._mac_tag is not None ==> self._mac_tag == spec.hashprim.poly1305(%s.g_key, %s.g_key2, %s.g_data)' % (s, s, s)]))
     done = 'self._mac_tag is not None'
     fsm = lambda m: fsm_clauses('MAC.digest_final', {('update', 'digest', 'verify'): 'not (%s)' % done, ('digest', 'verify'): done}, m)
-    reg.add(Contract(PM + '.__init__', params={'r': 'buffer', 's': 'buffer', 'data': 'buffer|none'}, self_type='new:' + PM,
+    reg.add(Contract(PM + '.__init__', params={'r': 'buffer', 's': 'bytes|bytearray', 'data': 'buffer|none'}, self_type='new:' + PM,
                      raises={'ValueError': ('iff', 'len(r) != 16 or len(s) != 16')},
                      ensures={'key': '%s.g_key == bytes(r) and %s.g_key2 == bytes(s)' % (s, s),
                               'absorbed': '%s.g_data == (b"" if data is None else bytes(data))' % s,
                               'fresh': 'self._mac_tag is None', 'valid': 'valid(self)'},
-                     modifies=None, options=opts(assume_valid=False)))
+                     modifies=['self._mac_tag', 'self._state'], options=opts(assume_valid=False)))
     forb, post = fsm('update')
     reg.add(Contract(PM + '.update', params={'data': 'buffer'}, requires=['valid(self)'],
                      raises={'TypeError': ('iff', forb)}, unchanged_on_raise=True,
@@ -274,7 +262,163 @@ def add_poly1305(reg):
             ensures=dict(post, accepted='bytes(mac_tag) == ' + value, valid='valid(self)'),
             on_raise={'ValueError': ['self._mac_tag is not None', 'valid(self)']},
             modifies=['self._mac_tag'], inline=[PM + '.digest'], options=opts(feas_ms=120))
-    reg.add(Contract(PM + '.copy', params={}, raises={'NotImplementedError': ('iff', 'True')}, modifies=[], options=opts()))
+
+
+# ---- key derivation (r, s) of Poly1305.new: Cipher/AES.py and Cipher/ChaCha20.py `_derive_Poly1305_key_pair`
+AES = 'Crypto.Cipher.AES.'
+CC = 'Crypto.Cipher.ChaCha20.'
+
+
+def add_poly1305_ciphers(reg):
+    """abstract cipher objects behind AES.new(k, MODE_ECB) and ChaCha20.new(key=, nonce=) (assumed; served under C02 by the cipher areas):
+    only what the key derivation uses -- one AES block, the first 32 key-stream bytes"""
+    why = 'Cipher.AES / Cipher.ChaCha20 construction and native code (bounded: bounded/blockciphers.py, bounded/modes.py; C02)'
+    reg.add(ClassContract('native.AesEcb', fields={'g_key': 'bytes'}, abstract=True))
+    reg.add(Contract(AES + 'new', params={'key': 'bytes', 'mode': 'int', 'args': 'tuple()', 'kwargs': 'dict()'},
+                     requires=['mode == 1', 'len(key) in (16, 24, 32)'], result='obj:native.AesEcb',
+                     ensures={'key': 'result.g_key == bytes(key)'}, modifies=None, assumed=why))
+    reg.add(Contract('native.AesEcb.encrypt', params={'self': 'obj:native.AesEcb', 'plaintext': 'bytes'},
+                     requires=['len(plaintext) == 16'], returns='spec.hashprim.aes_block(self.g_key, bytes(plaintext))', modifies=[],
+                     options={'exact': True}, assumed=why))
+    reg.add(ClassContract('native.ChaCha20', fields={'g_key': 'bytes', 'g_nonce': 'bytes', 'g_pos': 'nat'}, abstract=True))
+    reg.add(Contract(CC + 'new', params={'kwargs': 'dict(key:bytes,nonce:bytes)'},
+                     requires=['len(kwargs["key"]) == 32', 'len(kwargs["nonce"]) == 12'], result='obj:native.ChaCha20',
+                     ensures={'key': 'result.g_key == bytes(old(kwargs["key"])) and result.g_nonce == bytes(old(kwargs["nonce"])) and result.g_pos == 0'},
+                     modifies=None, assumed=why))
+    # encrypting zeros returns the key stream itself (x xor 0 == x): the first 32 bytes of block 0
+    reg.add(Contract('native.ChaCha20.encrypt', params={'self': 'obj:native.ChaCha20', 'plaintext': 'bytes'},
+                     requires=['self.g_pos == 0', 'plaintext == bytes(32)'], returns='spec.hashprim.chacha20_block0(self.g_key, self.g_nonce)',
+                     sets={'self.g_pos': '32'}, modifies=['self.g_pos'], options={'exact': True}, assumed=why))
+    # Bernstein, "The Poly1305-AES message-authentication code", section 2: the 32-byte key is (k, r); s = AES_k(n), n a 16-byte nonce
+    reg.add(Contract(AES + '_derive_Poly1305_key_pair', params={'key': 'buffer', 'nonce': 'buffer|none'},
+                     raises={'ValueError': ('iff', 'len(key) != 32 or (nonce is not None and len(nonce) != 16)')},
+                     ensures={'r': 'bytes(result[0]) == bytes(key)[16:]',
+                              's': 'result[1] == spec.hashprim.aes_block(bytes(key)[:16], bytes(result[2]))',
+                              'nonce': '(nonce is not None ==> bytes(result[2]) == bytes(nonce)) and len(result[2]) == 16'},
+                     modifies=[], result='tuple(bytes,bytes,bytes)', options=opts()))
+    # RFC 8439 2.6: poly1305_key_gen(key, nonce) = the first 32 bytes of the ChaCha20 block with counter 0; r = bytes 0..15, s = bytes 16..31.
+    # "if the provided nonce is only 64-bit, then the first 32 bits of the nonce will be set to a constant number. This will usually be zero"
+    padded = '(rep(b"\\x00", 4) + bytes(result[2]) if len(result[2]) == 8 else bytes(result[2]))'
+    reg.add(Contract(CC + '_derive_Poly1305_key_pair', params={'key': 'buffer', 'nonce': 'buffer|none'},
+                     raises={'ValueError': ('iff', 'len(key) != 32 or (nonce is not None and len(nonce) != 8 and len(nonce) != 12)')},
+                     ensures={'r': 'result[0] == spec.hashprim.chacha20_block0(bytes(key), %s)[:16]' % padded,
+                              's': 'result[1] == spec.hashprim.chacha20_block0(bytes(key), %s)[16:]' % padded,
+                              'nonce': '(nonce is not None ==> bytes(result[2]) == bytes(nonce)) and (nonce is None ==> len(result[2]) == 12)'},
+                     modifies=[], result='tuple(bytes,bytes,bytes)', options=opts()))
+
+
+def add_poly1305_new(reg):
+    RS = ST('result')
+    alts = []
+    for cm in ('Crypto.Cipher.AES', 'Crypto.Cipher.ChaCha20'):
+        c = 'cipher:module:' + cm
+        alts += ['dict(%s,key:bytes)' % c, 'dict(%s,key:bytes,nonce:bytes)' % c, 'dict(%s,key:bytearray,nonce:memoryview,data:bytes)' % c,
+                 'dict(%s,key:memoryview,nonce:bytearray,data:memoryview)' % c, 'dict(%s,key:bytes,data:none)' % c, 'dict(%s)' % c,
+                 'dict(%s,key:bytes,nonce:bytes,bogus:int)' % c]
+    alts += ['dict()', 'dict(key:bytes)', 'dict(cipher:none,key:bytes)', 'dict(cipher:module:Crypto.Cipher.DES3,key:bytes)']
+    # which module was passed: told apart by its block_size constant (AES: 16, ChaCha20: 1)
+    has = '("cipher" in kwargs and hasattr(kwargs["cipher"], "_derive_Poly1305_key_pair"))'
+    is_aes = '(%s and kwargs["cipher"].block_size == 16)' % has
+    is_cc = '(%s and kwargs["cipher"].block_size == 1)' % has
+    nocipher = '(not (%s or %s))' % (is_aes, is_cc)
+    nokey = '(not %s)' % kw_has('key')
+    badlen = ('(len(kwargs["key"]) != 32 or (%s and kwargs["nonce"] is not None and ((%s and len(kwargs["nonce"]) != 16) or '
+              '(%s and len(kwargs["nonce"]) != 8 and len(kwargs["nonce"]) != 12))))' % (kw_has('nonce'), is_aes, is_cc))
+    key = 'bytes(old(kwargs["key"]))'
+    padded = '(rep(b"\\x00", 4) + result.nonce if len(result.nonce) == 8 else result.nonce)'
+    data = kw_old('data', 'None')
+    reg.add(Contract(H + 'Poly1305.new', params={'kwargs': '|'.join(alts)},
+                     raises={'ValueError': ('iff', '%s or (not %s and not %s and %s)' % (nocipher, nokey, kw_has('bogus'), badlen)),
+                             'TypeError': ('iff', 'not %s and (%s or %s)' % (nocipher, nokey, kw_has('bogus')))},
+                     ensures={'aes': 'old(%s) ==> (%s.g_key == %s[16:] and %s.g_key2 == spec.hashprim.aes_block(%s[:16], result.nonce) and len(result.nonce) == 16)'
+                                     % (is_aes, RS, key, RS, key),
+                              'chacha': 'old(%s) ==> (%s.g_key == spec.hashprim.chacha20_block0(%s, %s)[:16] and '
+                                        '%s.g_key2 == spec.hashprim.chacha20_block0(%s, %s)[16:] and len(result.nonce) in (8, 12))'
+                                        % (is_cc, RS, key, padded, RS, key, padded),
+                              'nonce': '("nonce" in old(kwargs) and old(kwargs["nonce"]) is not None) ==> result.nonce == bytes(old(kwargs["nonce"]))',
+                              'absorbed': '%s.g_data == (b"" if %s is None else bytes(%s))' % (RS, data, data),
+                              'fresh': 'result._mac_tag is None', 'valid': 'valid(result)'},
+                     modifies=None, result='obj:' + PM, options=opts()))
+
+
+# ================================================================================================ HMAC (RFC 2104)
+HMAC = H + 'HMAC.HMAC'
+HM = 'native.HashModule'        # the `digestmod` argument: any hash module / object of Crypto.Hash (PEP 247 interface)
+HO = 'native.Hash'              # the hash objects it creates
+
+
+def add_hash_interface(reg):
+    """abstract hash module and hash object: ghost algorithm identity g_alg, all bytes absorbed g_data; digest() is the uninterpreted
+    md(g_alg, g_data); update/digest/copy in any order (FSM HASH.free).  The SHA-2 wrappers are PROVED to implement exactly this
+    interface (units hash.md.*: g_data' == g_data ++ data, digest == md(alg, g_data) without finalising, copy() fresh and equal)."""
+    why = 'hash module interface; proved for SHA224/256/384 wrappers in units hash.md.*, others bounded: bounded/hashes.py'
+    reg.add(ClassContract(HM, fields={'digest_size': 'int', 'block_size': 'int', 'g_alg': 'int',
+                                      # an OID that is in HMAC's table (SHA-256) or one that is not
+                                      'oid': "enum('2.16.840.1.101.3.4.2.1', '1.2.3.4')"},
+                          # RFC 2104 section 2: L < B for every hash it is defined over
+                          valid=['1 <= self.digest_size and self.digest_size <= self.block_size',
+                                 'self.digest_size == spec.hashprim.md_len(self.g_alg)'], abstract=True))
+    reg.add(ClassContract(HO, fields={'g_alg': 'int', 'g_data': 'bytes'}, abstract=True))
+    reg.add(Contract(HM + '.new', params={'self': 'obj:' + HM, 'data': 'bytes'}, result='obj:' + HO,
+                     ensures={'state': 'result.g_alg == self.g_alg and result.g_data == bytes(data)'}, modifies=[], assumed=why))
+    reg.add(Contract(HO + '.update', params={'self': 'obj:' + HO, 'data': 'bytes'}, sets={'self.g_data': 'old(self.g_data) + bytes(data)'},
+                     modifies=['self.g_data'], options={'exact': True}, assumed=why))
+    reg.add(Contract(HO + '.digest', params={'self': 'obj:' + HO}, returns='spec.hashprim.md(self.g_alg, self.g_data)', modifies=[],
+                     options={'exact': True}, assumed=why))
+    reg.add(Contract(HO + '.copy', params={'self': 'obj:' + HO}, result='obj:' + HO,
+                     ensures={'state': 'result.g_alg == self.g_alg and result.g_data == self.g_data'}, modifies=[], assumed=why))
+    reg.add(Contract('Crypto.Util.strxor.strxor', params={'term1': 'bytes', 'term2': 'bytes', 'output': 'none'},
+                     raises={'ValueError': ('iff', 'len(term1) != len(term2)')},
+                     returns='spec.hashprim.xor(bytes(term1), bytes(term2))', modifies=[], options={'exact': True},
+                     assumed='native strxor: bytewise exclusive or (bounded: bounded/hashes.py HMAC against hmac/OpenSSL for keys 0..2*block+1)'))
+
+
+def add_hmac(reg):
+    add_hash_interface(reg)
+    dm = 'self._digestmod'
+    reg.add(ClassContract(HMAC, fields={'digest_size': 'int', '_digestmod': 'obj:' + HM, 'oid?': 'str', '_inner': 'obj:' + HO, '_outer': 'obj:' + HO},
+                          valid=['self._inner.g_alg == %s.g_alg and self._outer.g_alg == %s.g_alg' % (dm, dm),
+                                 'self.digest_size == %s.digest_size' % dm, 'self._inner is not self._outer']))
+    alg = 'digestmod.g_alg, digestmod.block_size'
+    reg.add(Contract(HMAC + '.__init__', params={'key': 'buffer', 'msg': 'buffer|none', 'digestmod': 'obj:' + HM}, self_type='new:' + HMAC,
+                     requires=['valid(digestmod)'], raises={},
+                     # RFC 2104: inner hash starts with K0 xor ipad (then the text), outer with K0 xor opad; K0 = key (hashed when longer than B) zero padded to B
+                     ensures={'inner': 'self._inner.g_data == spec.hmac.ipad_key(%s, bytes(key)) + (b"" if msg is None else bytes(msg))' % alg,
+                              'outer': 'self._outer.g_data == spec.hmac.opad_key(%s, bytes(key))' % alg,
+                              'module': 'self._digestmod is digestmod', 'valid': 'valid(self)',
+                              'oid': 'hasattr(self, "oid") == (digestmod.oid == "2.16.840.1.101.3.4.2.1")'},
+                     modifies=['self.digest_size', 'self._digestmod', 'self.oid', 'self._inner', 'self._outer'],
+                     options=opts(assume_valid=False)))
+    for m in ('update', 'digest', 'verify', 'copy'):
+        assert fsm_clauses('MAC.free', {('update', 'digest', 'verify', 'copy'): 'True'}, m)[0] == 'False'
+    reg.add(Contract(HMAC + '.update', params={'msg': 'buffer'}, requires=['valid(self)'], raises={},
+                     ensures={'absorbed': 'self._inner.g_data == old(self._inner.g_data) + bytes(msg)', 'self': 'result is self', 'valid': 'valid(self)'},
+                     returns='self', modifies=['self._inner.g_data'], options=opts()))
+    value = 'spec.hashprim.md(%s.g_alg, self._outer.g_data + spec.hashprim.md(%s.g_alg, self._inner.g_data))' % (dm, dm)
+    # digest() works on a copy of the outer hash and does not finalise the inner one: repeatable, more text may follow
+    reg.add(Contract(HMAC + '.digest', params={}, requires=['valid(self)'], raises={},
+                     ensures={'value': 'result == ' + value, 'size': 'len(result) == self.digest_size'},
+                     modifies=[], result='bytes', options=opts()))
+    reg.add(Contract(HMAC + '.copy', params={}, requires=['valid(self)'], raises={},
+                     ensures={'fresh': 'result is not self and result._inner is not self._inner and result._outer is not self._outer and '
+                                       'result._inner is not self._outer and result._outer is not self._inner',
+                              'state': 'result._inner.g_data == self._inner.g_data and result._outer.g_data == self._outer.g_data and '
+                                       'result._digestmod is self._digestmod and result.digest_size == self.digest_size',
+                              'valid': 'valid(result)'},
+                     modifies=[], result='obj:' + HMAC, inline=[HMAC + '.__init__'], options=opts()))
+    for kind in ('bytes', 'bytearray', 'memoryview'):
+        reg.contracts[HMAC + '.verify#' + kind] = Contract(
+            HMAC + '.verify', params={'mac_tag': kind}, requires=['valid(self)'],
+            raises={'ValueError': ('iff', 'bytes(mac_tag) != ' + value)},
+            ensures={'accepted': 'bytes(mac_tag) == ' + value}, modifies=[], options=opts(feas_ms=120))
+    # end to end: the object handed out by new() computes RFC 2104's HMAC(K, text)
+    reg.add(Contract(H + 'HMAC.new', params={'key': 'buffer', 'msg': 'buffer|none', 'digestmod': 'obj:' + HM}, raises={},
+                     ensures={'inner': 'result._inner.g_data == spec.hmac.ipad_key(%s, bytes(key)) + (b"" if msg is None else bytes(msg))' % alg,
+                              'outer': 'result._outer.g_data == spec.hmac.opad_key(%s, bytes(key))' % alg,
+                              'hmac': 'spec.hashprim.md(digestmod.g_alg, result._outer.g_data + spec.hashprim.md(digestmod.g_alg, result._inner.g_data)) == '
+                                      'spec.hmac.hmac(%s, bytes(key), (b"" if msg is None else bytes(msg)))' % alg,
+                              'valid': 'valid(result)'},
+                     modifies=[], result='obj:' + HMAC, inline=[HMAC + '.__init__'], options=opts()))
 
 
 def registry():
@@ -282,8 +426,68 @@ def registry():
     add_md(reg)
     add_blake2(reg)
     add_poly1305(reg)
+    add_poly1305_ciphers(reg)
+    add_poly1305_new(reg)
+    add_hmac(reg)
     return reg
 
 
+KINDS = ('bytes', 'bytearray', 'memoryview')
+
+
 def units(prop, tier):
-    return []
+    from vf.pyunit import pyvc_unit
+    us = []
+
+    def u(uid, targets):
+        us.append(pyvc_unit(prop, uid, registry, targets))
+    # verify(): the bytearray variant runs in every tier under C19 (units *.frames)
+    vkinds = ('bytes', 'memoryview') if tier == 'quick' else KINDS
+    mds = [(mod, H + mod + '.' + cls) for mod, cls, lib, pre, ds, alg, limit in MD]
+    b2s = [(pre, mod, H + mod + '.' + cls) for mod, cls, lib, pre, mx, oids, limit in B2]
+    if prop == 'C03':
+        for mod, c in mds:
+            u('hash.md.%s' % mod, [c + '.__init__', c + '.update', c + '.digest', c + '.new', H + mod + '.new'])
+        for pre, mod, c in b2s:
+            u('hash.blake2.%s.init' % pre, [c + '.__init__'])
+            u('hash.blake2.%s.update_digest' % pre, [c + '.update', c + '.digest'])
+            for k in vkinds:
+                u('hash.blake2.%s.verify.%s' % (pre, k), [c + '.verify#' + k])
+            u('hash.blake2.%s.new' % pre, [H + mod + '.new'])
+        u('hash.poly1305.init', [PM + '.__init__'])
+        u('hash.poly1305.update_digest', [PM + '.update', PM + '.digest'])
+        for k in vkinds:
+            u('hash.poly1305.verify.' + k, [PM + '.verify#' + k])
+        u('hash.poly1305.derive_aes', [AES + '_derive_Poly1305_key_pair'])
+        u('hash.poly1305.derive_chacha20', [CC + '_derive_Poly1305_key_pair'])
+        u('hash.poly1305.new', [H + 'Poly1305.new'])
+        u('hash.hmac.init', [HMAC + '.__init__'])
+        u('hash.hmac.update_digest', [HMAC + '.update', HMAC + '.digest'])
+        for k in KINDS:     # (HMAC.verify is cheap and has no other unit for bytearray)
+            u('hash.hmac.verify.' + k, [HMAC + '.verify#' + k])
+        u('hash.hmac.new', [H + 'HMAC.new'])
+    if prop == 'C09':
+        # segmentation: update() appends exactly its argument to the abstract input; digest() is a function of that input only
+        for mod, c in mds:
+            u('hash.md.%s.segmentation' % mod, [c + '.update', c + '.digest'])
+        for pre, mod, c in b2s:
+            u('hash.blake2.%s.segmentation' % pre, [c + '.update', c + '.digest'])
+        u('hash.poly1305.segmentation', [PM + '.update', PM + '.digest'])
+        u('hash.hmac.segmentation', [HMAC + '.update', HMAC + '.digest'])
+    if prop == 'C10':
+        for mod, c in mds:
+            u('hash.md.%s.fsm' % mod, [c + '.update', c + '.digest', c + '.copy'])
+        for pre, mod, c in b2s:
+            u('hash.blake2.%s.fsm' % pre, [c + '.update', c + '.digest', c + '.verify#bytes'])
+        u('hash.poly1305.fsm', [PM + '.update', PM + '.digest', PM + '.verify#bytes'])
+        u('hash.hmac.fsm', [HMAC + '.update', HMAC + '.digest', HMAC + '.copy', HMAC + '.verify#bytes'])
+    if prop == 'C19':
+        # copy(): fresh native state, equal abstract state; update()/digest() frames show that later calls on one object do not
+        # touch the other; `modifies` of every method excludes its byte-string arguments
+        for mod, c in mds:
+            u('hash.md.%s.copy' % mod, [c + '.copy', c + '.update', c + '.digest'])
+        u('hash.hmac.copy', [HMAC + '.copy', HMAC + '.update', HMAC + '.digest'])
+        for pre, mod, c in b2s:
+            u('hash.blake2.%s.frames' % pre, [c + '.update', c + '.verify#bytearray'])
+        u('hash.poly1305.frames', [PM + '.update', PM + '.verify#bytearray'])
+    return us
